@@ -45,6 +45,10 @@ func aliasPool() []func() Stmt {
 				Body: []Stmt{&Return{X: I("rest")}}}}, Args: []Expr{I("a")}, Spread: true})
 		},
 		func() Stmt { return Set(idx("e", "0"), N("5")) },
+		func() Stmt {
+			return Def("e", &Call{F: &Paren{X: &FuncLit{Params: []string{"rest"}, VarArgs: true,
+				Body: []Stmt{Set(idx("rest", "1"), N("98")), &Return{X: I("rest")}}}}, Args: []Expr{I("d")}, Spread: true})
+		},
 	}
 }
 
